@@ -15,7 +15,7 @@ func init() {
 	execs["serve3seq"] = execServe3Seq
 }
 
-var c03Exp = []string{"none", "far-past", "now-1", "now", "now+1", "far"}
+var c03Exp = []string{"none", "far-past", "now-1", "now", "now+1", "far", "zero", "neg"}
 var c03Nbf = []string{"unset", "far-past", "now-1", "now", "now+1", "far"}
 
 func relOf(s string) *int {
@@ -62,6 +62,10 @@ func genC03(cfg Config, emit Emit) error {
 				pos := cfg.Rng.Intn(len(w.Tokens))
 				t := &w.Tokens[pos]
 				t.Exp, t.ExpRel = nil, relOf(e)
+				if e == "zero" || e == "neg" { // absolute: the epoch itself, and before it
+					abs := map[string]int{"zero": 0, "neg": -5}[e]
+					t.Exp, t.ExpRel = &abs, nil
+				}
 				t.NbfRel = relOf(n)
 				where := "proof"
 				if pos == w.Inv {
@@ -132,6 +136,9 @@ func genSeq(cfg Config, emit Emit, mode string, nq, nt, attPct int) {
 		if attPct == 100 && i%3 != 1 {
 			// a session that is needed and proper: the verdict flips when its attestation's window closes / opens
 			oo.properSession, oo.sessionPct = true, 100
+		} else if attPct == 100 {
+			// a re-delegated attestation (authority -> worker -> attests): the boundary is on the worker's grant
+			oo.attVariant, oo.sessionPct = 4, 100
 		} else if i%3 == 2 {
 			// served twice: an otherwise valid chain, so that the verdict flips at the boundary
 			oo.properSession, oo.sessionPct = true, 30
@@ -156,6 +163,13 @@ func genSeq(cfg Config, emit Emit, mode string, nq, nt, attPct int) {
 		if len(atts) > 0 && cfg.Rng.Intn(100) < attPct {
 			pos = atts[cfg.Rng.Intn(len(atts))]
 			where = "attestation"
+			if oo.attVariant == 4 {
+				for _, a := range atts {
+					if len(w.Tokens[a].Prfs) > 0 { // the attestation made by the worker: take the grant it rests on
+						pos, where = w.Tokens[a].Prfs[0], "attestation-grant"
+					}
+				}
+			}
 		}
 		sh := shapes[i%len(shapes)]
 		t := &w.Tokens[pos]
